@@ -5,6 +5,8 @@ CONSTANTS
   MaxOps = 4
   Emit = FALSE
   Broken = "none"
+  Alphabet = {"new", "init_empty", "destroy", "get_dim", "init_guess", "init", "flags", "smap", "tmap", "evaluate", "copy", "assign", "map_new", "map_mutate"}
+  ProblemIds = {1, 2, 3}
 INVARIANT Inv
 CONSTRAINT EmitScripts
 VIEW View
